@@ -70,6 +70,8 @@ func TestVerif_C04_LayerMachine(t *testing.T) {
 			}
 		}
 		switches, withheld, written := 0, 0, 0
+		jumps := 0
+		afterJump := false
 		downSw, upSyncSw, timeoutSeen, limitSeen, eagerSeen := false, false, false, false, false
 		limitStanding := false
 		ceilingSet := false
@@ -102,13 +104,19 @@ func TestVerif_C04_LayerMachine(t *testing.T) {
 		}
 		nsteps := rapid.IntRange(5, 120).Draw(t, "nsteps")
 		for i := 0; i < nsteps; i++ {
-			ev := rapid.SampledFrom([]string{"pkt", "pkt", "pkt", "pkt", "pkt", "pkt", "remb", "rr", "rate", "timeout", "request", "lossdup"}).Draw(t, "ev")
+			ev := rapid.SampledFrom([]string{"pkt", "pkt", "pkt", "pkt", "pkt", "pkt", "remb", "rr", "rate", "timeout", "request", "lossdup", "jump"}).Draw(t, "ev")
 			l0 := down.getLayerInfo()
 			switch ev {
 			case "pkt", "lossdup":
 				e := next
 				inorder := true
-				if ev == "lossdup" {
+				first := afterJump
+				if afterJump {
+					// the first packet after a numbering jump does not "arrive in order": nothing tells the server what
+					// preceded it.  It is the packet at the new head (the overtaken ones come later).
+					inorder, afterJump = false, false
+				}
+				if ev == "lossdup" && !first {
 					inorder = false
 					if rapid.Bool().Draw(t, "dup") && next > start {
 						e = next - rapid.IntRange(1, min(next-start, 20)).Draw(t, "back")
@@ -238,6 +246,23 @@ func TestVerif_C04_LayerMachine(t *testing.T) {
 				if e >= next {
 					next = e + 1
 				}
+			case "jump":
+				// the publisher's numbering jumps beyond the re-synchronisation window (a restarted encoder), and the first
+				// packets after the jump may be overtaken by the one that follows them
+				if afterJump {
+					continue // one jump at a time: the distance is meant from the last packet delivered
+				}
+				d := rapid.IntRange(8200, 30000).Draw(t, "jumpBy")
+				over := rapid.IntRange(0, 3).Draw(t, "overtaken")
+				if rapid.Bool().Draw(t, "jumpBackwards") {
+					// (every packet after the jump, the overtaken ones included, lies beyond the window behind the old head)
+					d = 65536 - d - over
+				}
+				next += d + over
+				start = next - over // the overtaken packets are the only ones that may still arrive from before the head
+				jumps++
+				afterJump = true
+				logf("source numbering jumps by %d; next source packet e=%d", d, next)
 			case "remb":
 				rate := uint64(rapid.SampledFrom([]int{0, 1, 5000, 50000, 300000, 2000000, 1 << 31}).Draw(t, "rembRate"))
 				down.maxREMBBitrate.Set(rate, rtptime.Jiffies())
@@ -278,7 +303,7 @@ func TestVerif_C04_LayerMachine(t *testing.T) {
 				limitSeen = limitSeen || lim
 				logf("request low-quality=%v -> %s", lim, layerStr(down.getLayerInfo()))
 			}
-			if ev != "pkt" && ev != "lossdup" {
+			if ev != "pkt" && ev != "lossdup" && ev != "jump" {
 				l1 := down.getLayerInfo()
 				if l1.sid != l0.sid || l1.tid != l0.tid {
 					t.Fatalf("event %s changed the forwarded layer outside a packet boundary: %s -> %s", ev, layerStr(l0), layerStr(l1))
@@ -298,6 +323,7 @@ func TestVerif_C04_LayerMachine(t *testing.T) {
 		c04Rec.ClassIf(timeoutSeen, "feedback_timeout")
 		c04Rec.ClassIf(limitSeen, "low_quality_request")
 		c04Rec.ClassIf(withheld > 0, "some_withheld")
+		c04Rec.ClassIf(jumps > 0, "source_numbering_jump_beyond_resync_window")
 		c04Rec.Class(fmt.Sprintf("first_seqno_eighth_%d", (start&0xffff)>>13))
 	})
 }
